@@ -35,7 +35,8 @@ Record oracles := mkOracles {
   o_idna_dec : text -> mres text;           (* s.encode('ascii').decode('idna'); MRaise = UnicodeError *)
   o_idna_enc : text -> mres text;           (* s.encode('idna').decode('ascii') *)
   o_inet4 : text -> mres bool;              (* inet_pton(AF_INET, s) succeeds *)
-  o_inet6 : text -> mres inet6_result       (* inet_pton(AF_INET6, s): ok / OSError or ValueError / UnicodeEncodeError *)
+  o_inet6 : text -> mres inet6_result;      (* inet_pton(AF_INET6, s): ok / OSError or ValueError / UnicodeEncodeError *)
+  o_int : text -> mres (option Z)           (* int(s) for a text with non-ASCII characters; None = ValueError *)
 }.
 
 Inductive comp := CUser | CPath | CQuery | CFrag.
@@ -199,7 +200,12 @@ Definition split_hostport (hostinfo : text) : mres (text * option Z) :=
         | Some p => MOk (host, Some p)
         | None => match port_str with [] => MOk (host, None) | _ => URLParseErr end
         end
-      else MOut 1                               (* int() of non-ASCII text is not modelled *)
+      else                                      (* int() of non-ASCII text: Unicode digits/blanks, asked of the oracle *)
+        do r <- o_int O port_str;
+        match r with
+        | Some p => MOk (host, Some p)
+        | None => URLParseErr
+        end
     else MOk (host, None)
   end.
 
